@@ -72,6 +72,7 @@ ASSUMPTIONS = [
 GUARD_S = {"quick": 1500, "thorough": 4 * 3600}
 
 MIN, MAX = dt.datetime.min, dt.datetime.max
+BOUND_READER = "handler/bound-method-reader-drops-read_args"
 
 
 class MFile:
@@ -122,8 +123,23 @@ def out_of_workers(exc):
 class World:
     def __init__(self, case, box, ctx):
         self.case, self.box, self.ctx = case, box, ctx
-        self.specs = case["filesets"]
+        self.specs = [dict(s) for s in case["filesets"]]
         self.family = case["family"]
+        self.stop = False
+        for spec in self.specs:
+            if spec["kind"] != "user":
+                continue
+            ctx.label("handler-" + spec["variant"])
+            reader = M.USER_VARIANTS[spec["variant"]][0]
+            spec["one_extra_reader"] = reader in M.ONE_EXTRA_READERS
+            if spec["one_extra_reader"] and ctx.is_known(BOUND_READER):
+                # open finding: read_args never reach such a reader - the
+                # class is generated without read_args and counted
+                if spec["read_args"]:
+                    ctx.fail(BOUND_READER, "reader %s, read_args %r" % (
+                        reader, spec["read_args"]))
+                    ctx.label("known-bound-reader-without-read_args")
+                spec["read_args"] = {}
         self.has_nc = any(s["kind"] == "nc" for s in self.specs)
         self.tmp = box.mkdir("tmp")
         self.scratch = box.mkdir("scratch")
@@ -154,8 +170,14 @@ class World:
         if self.has_nc:
             kwargs["max_threads"] = 1
         if spec["kind"] == "user":
-            reader, writer = M.USER_VARIANTS[spec["variant"]]
-            kwargs["handler"] = FileHandler(reader=reader, writer=writer)
+            reader, writer, info = M.user_handler_parts(spec)
+            kwargs["handler"] = FileHandler(reader=reader, writer=writer,
+                                            info=info)
+            if info is not None:
+                kwargs["info_via"] = "both"
+                self.ctx.label("handler-info-method")
+            if spec.get("refuse"):
+                self.ctx.label("refusing-writer")
         elif spec["handler"] == "explicit":
             kwargs["handler"] = CSV() if spec["kind"] == "csv" else NetCDF4()
         fileset = FileSet(G.template_str(tpl, self.roots[k]), **kwargs)
@@ -274,7 +296,10 @@ class World:
                            what + "/wrong-times", lambda: (
                                "%r reported with times %r; %s" % (
                                    mf, f.times, self.where())))
-            self.ctx.check(dict(f.attr) == mf.attrs, what + "/wrong-attr",
+            attrs = dict(mf.attrs)
+            if self.specs[mf.fs].get("info"):
+                attrs["codec"] = "c1"       # added by the handler's info()
+            self.ctx.check(dict(f.attr) == attrs, what + "/wrong-attr",
                            lambda: "%r reported with attr %r; %s" % (
                                mf, f.attr, self.where()))
 
@@ -406,9 +431,11 @@ class World:
         via = op["via"]
         call_args, unlimited = {}, ()
         if via == "write-args":
-            if spec["kind"] == "user" and spec["variant"] == "bytes-args":
+            w_opts = M.USER_VARIANTS[spec["variant"]][3] \
+                if spec["kind"] == "user" else ()
+            if "header" in w_opts:
                 call_args = {"header": b"CALL"}
-            elif spec["kind"] == "user" and spec["variant"] == "pickle":
+            elif "protocol" in w_opts:
                 call_args = {"protocol": 4}
             elif spec["kind"] == "nc" and not M.has_groups(plain) \
                     and plain["dims"]:
@@ -417,18 +444,33 @@ class World:
             else:
                 via = "write"
         ctx.label("write-" + via)
-        if via in ("slice", "single"):
-            time_key = s if (via == "single" and s == e) else slice(s, e)
-            fileset[(time_key, attrs) if attrs else time_key] = data
-        elif via == "write":
-            name = fileset.get_filename((s, e), fill=attrs or None)
-            ctx.check(name == path, "write/get_filename-differs", lambda: (
-                "expected %r got %r" % (path, name)))
-            fileset.write(data, name)
-        elif via == "write-info":
-            fileset.write(data, FileInfo(path))
-        else:
-            fileset.write(data, path, **call_args)
+
+        def call():
+            if via in ("slice", "single"):
+                time_key = s if (via == "single" and s == e) else slice(s, e)
+                fileset[(time_key, attrs) if attrs else time_key] = data
+            elif via == "write":
+                name = fileset.get_filename((s, e), fill=attrs or None)
+                ctx.check(name == path, "write/get_filename-differs",
+                          lambda: "expected %r got %r" % (path, name))
+                fileset.write(data, name)
+            elif via == "write-info":
+                fileset.write(data, FileInfo(path))
+            else:
+                fileset.write(data, path, **call_args)
+
+        if spec.get("refuse") and M.is_poison(plain):
+            # the handler cannot store this: the error must come through and
+            # nothing may change (an existing file of that name stays)
+            try:
+                call()
+            except M.WriteRefused:
+                ctx.label("write-refused")
+            else:
+                ctx.fail("write/refused-write-not-reported", self.where())
+            self.verify(before, set(), "write-refused")
+            return
+        call()
         if path in self.files:
             ctx.label("overwrite")
         t0, t1 = G.model_times(tpl, s, e)
@@ -455,12 +497,31 @@ class World:
         how = op["how"]
         ctx.label("read-" + how)
         what = "read/" + how
+        if how == "read-args":
+            # per-call read arguments override those of the fileset
+            r_opts = M.USER_VARIANTS[spec["variant"]][2] \
+                if spec["kind"] == "user" else ()
+            if "strip" in r_opts and not (
+                    spec["one_extra_reader"] and ctx.is_known(BOUND_READER)):
+                f = files[op["file"] % len(files)]
+                call_args = {"strip": 1 + op["frac"]}
+                merged = dict(spec, read_args=dict(spec["read_args"],
+                                                   **call_args))
+                got = fileset.read(f.path, **call_args)
+                diff = self.differs(got, self.value(merged, f))
+                ctx.check(diff is None, what + "/wrong-content", lambda: (
+                    "%r with %r: %s; %s" % (f, call_args, diff,
+                                            self.where())))
+            else:
+                how = "read"
         if how in ("read", "read-info"):
             f = files[op["file"] % len(files)]
             arg = f.path if how == "read" else FileInfo(f.path)
             diff = self.differs(fileset.read(arg), self.value(spec, f))
             ctx.check(diff is None, what + "/wrong-content", lambda: (
                 "%r: %s; %s" % (f, diff, self.where())))
+        elif how == "read-args":
+            pass
         elif how == "item":
             f = files[op["file"] % len(files)]
             t = f.t0 + (f.t1 - f.t0) * op["frac"] / 2
@@ -564,6 +625,23 @@ class World:
         t0, t1 = G.model_times(tpl, s2, e2)
         return path, t0, t1
 
+    def refusal_pair(self, convert):
+        """(source, target) filesets such that a converting move hands the
+        target's refusing writer something it cannot store, or None"""
+        for i, src in enumerate(self.specs):
+            if src["kind"] != "user":
+                return None
+            for f in self.files_of(i):
+                value = self.value(src, f)
+                if convert == "callable":
+                    value = M.user_converted(value)
+                if not M.is_poison(value):
+                    continue
+                for j, dst in enumerate(self.specs):
+                    if j != i and dst.get("refuse"):
+                        return i, j
+        return None
+
     def op_move(self, op):
         from typhon.files import FileSet
         from typhon.files.fileset import NoFilesError
@@ -576,15 +654,25 @@ class World:
         j = op["to"] % n
         if j == i:
             j = (i + 1) % n
-        src, dst = self.specs[i], self.specs[j]
         convert, copy = op["convert"], op["copy"]
         target_as = op["target_as"]
+        sel = op["sel"]
+        if op.get("aim") in ("refusal", "refusal-copy"):
+            aimed = self.refusal_pair(convert)
+            if aimed is not None:
+                i, j = aimed
+                copy = op["aim"] == "refusal-copy"
+                target_as = "fileset"
+                sel = dict(sel, kind="all")
+                if not convert or convert == "raises":
+                    convert = True
+        src, dst = self.specs[i], self.specs[j]
         if (src["kind"], src["comp"]) != (dst["kind"], dst["comp"]) \
                 and not convert:
             convert = True
         if target_as == "path" and src["kind"] != dst["kind"]:
             target_as = "fileset"
-        kwargs, exp, error = self.selection(i, op["sel"])
+        kwargs, exp, error = self.selection(i, sel)
         # distinct target names
         plan, taken = [], set()
         for f in exp:
@@ -622,6 +710,26 @@ class World:
                           lambda: "%r; %s" % (exp, self.where()))
             self.verify(before, set(), "move-failed-conversion")
             return
+        # what each selected file becomes; which writes the handler refuses
+        outcome = {}
+        for f, path, t0, t1 in plan:
+            if convert:
+                value = self.value(src, f)
+                if convert == "callable":
+                    value = M.user_converted(value) \
+                        if src["kind"] == "user" \
+                        else M.table_converted(value)
+                if writer.get("refuse") and M.is_poison(value):
+                    outcome[f.path] = None
+                else:
+                    outcome[f.path] = self.stored_for(writer, value)
+            else:
+                outcome[f.path] = f.stored
+        if any(v is None for v in outcome.values()):
+            self.failing_move(i, j, plan, outcome, before, copy, lambda: (
+                self.fs[i].move(target, convert=conv_arg, copy=copy,
+                                **kwargs)))
+            return
         done, ret = self.call_selected(
             lambda: self.fs[i].move(target, convert=conv_arg, copy=copy,
                                     **kwargs), error, "move")
@@ -629,15 +737,7 @@ class World:
         moved = []
         if done:
             for f, path, t0, t1 in plan:
-                if convert:
-                    value = self.value(src, f)
-                    if convert == "callable":
-                        value = M.user_converted(value) \
-                            if src["kind"] == "user" \
-                            else M.table_converted(value)
-                    stored = self.stored_for(writer, value)
-                else:
-                    stored = f.stored
+                stored = outcome[f.path]
                 if path in self.files:
                     ctx.label("move-overwrites")
                 new = MFile(path, j, t0, t1, dict(f.attrs), stored)
@@ -697,6 +797,58 @@ class World:
                           "different", lambda: "%s: %s; %s" % (
                               new.path, diff, self.where()))
 
+    def failing_move(self, i, j, plan, outcome, before, copy, call):
+        """move(convert=...) with a target handler that cannot store some of
+        the selected files: the error comes through, the refused files keep
+        their originals, every other file is either moved or left alone -
+        nothing is lost.  Which of the other files were handled before the
+        error depends on the workers, so the model follows the disk and the
+        history ends here."""
+        ctx = self.ctx
+        try:
+            call()
+        except M.WriteRefused:
+            ctx.label("move-write-refused",
+                      "move-write-refused-" + ("copy" if copy else "no-copy"))
+        else:
+            ctx.fail("move-failed-write/error-not-reported", self.where())
+        touched = set()
+        for f, path, t0, t1 in plan:
+            old_there = os.path.isfile(f.path)
+            new_there = os.path.isfile(path)
+            new_changed = new_there and (path not in before
+                                         or sha(path) != before[path])
+            if outcome[f.path] is None or copy:
+                ctx.check(old_there and sha(f.path) == before[f.path],
+                          "move-failed-write/original-lost", lambda: (
+                              "%r (write refused: %r, copy: %r); %s" % (
+                                  f, outcome[f.path] is None, copy,
+                                  self.where())))
+            if outcome[f.path] is None:
+                ctx.check(not new_changed and (new_there or
+                                               path not in before),
+                          "move-failed-write/target-damaged", lambda: (
+                              "%s; %s" % (path, self.where())))
+                continue
+            handled = new_changed if copy else not old_there
+            if not handled:
+                ctx.check(old_there, "move-failed-write/data-lost",
+                          lambda: "%r; %s" % (f, self.where()))
+                continue
+            ctx.check(new_there, "move-failed-write/data-lost", lambda: (
+                "%r is neither at its old place nor at %s; %s" % (
+                    f, path, self.where())))
+            touched.add(path)
+            if not copy:
+                del self.files[f.path]
+                touched.add(f.path)
+            self.files[path] = MFile(path, j, t0, t1, dict(f.attrs),
+                                     outcome[f.path])
+        if self.writes >= 2:
+            ctx.nontrivial = True
+        self.verify(before, touched, "move-failed-write")
+        self.stop = True
+
     def op_delete(self, op):
         ctx = self.ctx
         i = self.pick_fs(op["fs"] % len(self.specs))
@@ -732,6 +884,8 @@ class World:
                 if not out_of_workers(exc):
                     raise
                 self.ctx.label("resource-exhausted")
+                return
+            if self.stop:
                 return
 
 
